@@ -69,6 +69,8 @@ class RequestChannelCommon(StreamHandler, Publisher, Subscription, Disposable, m
             else:
                 logger().warning('%s: Received request_n but no publisher provided', self.__class__.__name__)
 
+        elif self._received_complete:
+            pass  # receiving side already completed or cancelled locally
         elif isinstance(frame, PayloadFrame):
             if frame.flags_next:
                 self.remote_subscriber.on_next(payload_from_frame(frame),
